@@ -36,6 +36,9 @@ func (in *interp) exec(n node) ctl {
 	case simpleCmd:
 		in.step()
 		return in.execSimple(x)
+	case pipeNode:
+		in.step()
+		return in.execPipe(x)
 	}
 	panic("cmdmodel: unknown node")
 }
@@ -201,6 +204,10 @@ func splitArgs(s string) []string {
 func (in *interp) cmdCall(args string) {
 	a := strings.TrimLeft(args, " \t")
 	if !strings.HasPrefix(a, ":") {
+		if in.external != nil {
+			in.callExternal(a) // rule 12a
+			return
+		}
 		in.unmodelled("rule 11: call of something that is not a label (%q)", firstWord(a))
 	}
 	// phase 6: the expanded text is parsed once more; only the % phase is modelled
@@ -553,6 +560,9 @@ func splitLines(s string) []string {
 // from scratch, so TEXT is restricted to characters without any special meaning there.
 func (in *interp) runChild(cmdline string) []string {
 	c := strings.TrimLeft(cmdline, " \t")
+	if in.external != nil && strings.EqualFold(firstWord(c), "cmd") {
+		return in.runChildCmd(c) // rule 12c
+	}
 	if len(c) < 5 || !strings.EqualFold(c[:5], "echo ") {
 		in.unmodelled("rule 11: for /f over the output of %q (external command)", firstWord(c))
 	}
